@@ -15,6 +15,7 @@ timeout 3000 ./vcheck $ID --tier $TIER > /tmp/try_patch.$ID.$$.log 2>&1
 rc=$?
 git -C $REPO checkout -- .
 echo "rc=$rc $(grep "^$ID tier" /tmp/try_patch.$ID.$$.log | head -1)"
-grep -E "^VIOLATION|^  violation|HARNESS-ERROR|ENCODING-MISMATCH" /tmp/try_patch.$ID.$$.log | cut -c1-400 | head -6
+grep -E "^VIOLATION|^  violation" /tmp/try_patch.$ID.$$.log | cut -c1-400 | head -6
+grep -E "HARNESS-ERROR|ENCODING-MISMATCH" /tmp/try_patch.$ID.$$.log | cut -c1-300 | head -3
 rm -f /tmp/try_patch.$ID.$$.log
 exit $rc
